@@ -170,6 +170,22 @@ func genC17(e *emitter, tier string) {
 			return []NamedT{{"x", val([]int{3}, g, k)}}
 		}, G, K, 1))
 	}
+	// weights that already have the shape of the input they are combined with (no stretching needed: the
+	// broadcast helpers hand the weight itself to the operator - whatever it does in place, it does to the model)
+	for _, G := range gs {
+		w := func(name string, seed int) InitJ { return InitJ{Name: name, T: smallT("f32", []int{2, 3}, seed)} }
+		gsame := &GraphJ{Inputs: []VInfoJ{{Name: "x", Dt: "f32", Dims: []any{2, 3}}},
+			Inits: []InitJ{w("slope", 3), w("wa", 4), w("wm", 5), w("ws", 6), w("wd", 7), {Name: "wg", T: smallT("f32", []int{3, 3}, 8)}, {Name: "cg", T: smallT("f32", []int{2, 3}, 9)}},
+			Nodes: []NodeJ{{Op: "PRelu", Ins: []string{"x", "slope"}, Outs: []string{"p"}}, {Op: "PRelu", Ins: []string{"slope", "x"}, Outs: []string{"p2"}},
+				{Op: "Add", Ins: []string{"x", "wa"}, Outs: []string{"a"}}, {Op: "Mul", Ins: []string{"wm", "x"}, Outs: []string{"m"}},
+				{Op: "Sub", Ins: []string{"ws", "x"}, Outs: []string{"s"}}, {Op: "Div", Ins: []string{"x", "wd"}, Outs: []string{"d"}},
+				{Op: "Gemm", Ins: []string{"x", "wg", "cg"}, Outs: []string{"g"}}, {Op: "Greater", Ins: []string{"x", "wa"}, Outs: []string{"gt"}},
+				{Op: "PRelu", Ins: []string{"a", "slope"}, Outs: []string{"p3"}}},
+			Outputs: []string{"p", "p2", "a", "m", "s", "d", "g", "gt", "p3"}}
+		e.emit(concCase("weights-of-the-input-shape", func() (*gonnx.Model, error) { return loadModel(gsame) }, gsame, func(g, k int) []NamedT {
+			return []NamedT{{"x", val([]int{2, 3}, g, k)}}
+		}, G, K, 1))
+	}
 	// a graph whose nodes are NOT listed in topological order (not a valid ONNX graph: whatever Run does
 	// with it alone - today an error - it does concurrently too, without writing shared state), and a vector
 	// input multiplied with a shared weight matrix
